@@ -14,8 +14,47 @@ import (
 func init() { register("C04", c04) }
 
 func isWG(f *ssa.Function, name string) bool {
-	return f != nil && f.Pkg != nil && f.Pkg.Pkg.Path() == "sync" && f.Signature.Recv() != nil &&
-		an.IsNamed(f.Signature.Recv().Type(), "sync", "WaitGroup") && f.Name() == name
+	if f != nil && f.Pkg != nil && f.Pkg.Pkg.Path() == "sync" && f.Signature.Recv() != nil &&
+		an.IsNamed(f.Signature.Recv().Type(), "sync", "WaitGroup") && f.Name() == name {
+		return true
+	}
+	// a method of a wrapper type of the module forwarding, in one block, to that WaitGroup method on a field of its
+	// own receiver (`func (b *startBarrier) arrive() { b.wg.Done() }`)
+	if f == nil || !core.InModule(f) || f.Signature.Recv() == nil || len(f.Blocks) != 1 || len(f.Params) == 0 {
+		return false
+	}
+	n, hit := 0, false
+	for _, call := range an.AllCalls(f) {
+		n++
+		t := an.Callee(call)
+		if t == nil || t.Pkg == nil || t.Pkg.Pkg.Path() != "sync" || t.Name() != name || t.Signature.Recv() == nil || !an.IsNamed(t.Signature.Recv().Type(), "sync", "WaitGroup") {
+			continue
+		}
+		if fa, ok := call.Common().Args[0].(*ssa.FieldAddr); ok && an.Strip(fa.X) == ssa.Value(f.Params[0]) {
+			hit = true
+		}
+	}
+	return hit && n == 1
+}
+
+// isBarrierType: a sync.WaitGroup, or a struct of the module holding one by value.
+func isBarrierType(t types.Type) bool {
+	if an.IsNamed(t, "sync", "WaitGroup") {
+		return true
+	}
+	if p, ok := t.Underlying().(*types.Pointer); ok {
+		t = p.Elem()
+	}
+	st, ok := t.Underlying().(*types.Struct)
+	if !ok {
+		return false
+	}
+	for i := 0; i < st.NumFields(); i++ {
+		if an.IsNamed(st.Field(i).Type(), "sync", "WaitGroup") {
+			return true
+		}
+	}
+	return false
 }
 
 // reachesRunner: does fn (transitively, without crossing go statements) call the iteration runner?
@@ -161,7 +200,7 @@ func c04(c *core.Ctx, r *core.Report) {
 				var wg ssa.Value
 				wgIdx := -1
 				for i, a := range g.Common().Args {
-					if an.IsNamed(a.Type(), "sync", "WaitGroup") {
+					if isBarrierType(a.Type()) {
 						if _, isAlloc := an.Strip(a).(*ssa.Alloc); isAlloc {
 							wg, wgIdx = an.Strip(a), i
 						}
